@@ -126,6 +126,7 @@ class SymEval:
         self.phi_count = 0
         self.trace = []
         self.defs = {}         # names_as_atoms: atom -> defining value
+        self.global_arrays = {}   # fq -> the one evaluated module/class-level array
         self.def_node = {}     # atom -> statement node
         self.versions = {}
 
@@ -626,7 +627,29 @@ class SymEval:
                 hv = self.hooks.constant(self, q)
                 if hv is not None:
                     return hv
-            v = self.repo.fold_fq(q)
+            if q in self.global_arrays:
+                return self.global_arrays[q]
+            try:
+                v = self.repo.fold_fq(q)
+            except ValueError:
+                # a module/class-level array built by calls (np.hstack([...]), ...): evaluate the
+                # defining expression once; the ONE object is shared by every reader, as at run
+                # time (a write through an alias is seen by later calls)
+                owner = t[1]
+                mod = owner.module if isinstance(owner, ClassInfo) else owner
+                save = self.cur
+
+                class _Scope:
+                    module = mod
+                    cls = owner if isinstance(owner, ClassInfo) else None
+                    name = '<module>'
+                self.cur = _Scope()
+                try:
+                    v = self.eval(t[2], {})
+                finally:
+                    self.cur = save
+                self.global_arrays[q] = v
+                return v
             if isinstance(v, float) and self.const_symbolic:
                 short = q[len('pyins.'):] if q.startswith('pyins.') else q
                 if short == 'transform.DEG_TO_RAD':
@@ -1293,6 +1316,29 @@ class SymEval:
             return Opaque('ix', *args)
         if q == 'numpy.arange':
             return Opaque('arange', *args)
+        if q in ('numpy.hstack', 'numpy.vstack', 'numpy.block') and \
+                isinstance(args[0], (list, tuple)) and args[0] and \
+                all(isinstance(x, SArray) and len(x.shape) == 2 for x in args[0]):
+            seq = args[0]
+            ax = 0 if q == 'numpy.vstack' else 1
+            other = 1 - ax
+            if len({x.shape[other] for x in seq}) != 1:
+                raise Unsupported('stack of incompatible blocks')
+            shape = [0, 0]
+            shape[other] = seq[0].shape[other]
+            shape[ax] = sum(x.shape[ax] for x in seq)
+            out = SArray(tuple(shape), {})
+            off = 0
+            for x in seq:
+                for i in x.indices():
+                    j = list(i)
+                    j[ax] += off
+                    try:
+                        out.entries[tuple(j)] = x.get(i)
+                    except Unsupported:
+                        pass
+                off += x.shape[ax]
+            return out
         if q == 'numpy.hstack':
             seq = args[0]
             parts = []
